@@ -65,7 +65,10 @@ class RefNFA:
         res = set()
         if n < 0:
             return res
-        frontier = {(): self.initial()}
+        co = self.coreachable()          # only prefixes that can still be completed are extended
+        frontier = {(): self.initial() & co}
+        if not frontier[()]:
+            return res
         for k in range(n + 1):
             nxt = {}
             for w, S in frontier.items():
@@ -73,10 +76,12 @@ class RefNFA:
                     res.add(w)
                 if k < n:
                     for a in alphabet:
-                        T = self.step(S, a)
+                        T = self.step(S, a) & co
                         if T:
                             nxt[w + (a,)] = T
             frontier = nxt
+            if not frontier:
+                break
         return res
 
     # ---------------------------------------------------------- graph facts
